@@ -9,8 +9,7 @@ use crate::{ensure, ensure_eq_bytes, pick};
 use vp_base::obj::*;
 use vp_base::tape::{self, Tape};
 
-pub const RULE: &str = "tape -> 16-byte cipher config (toy widths 1,2,3,4,5,8, encrypt-only toy, AES-128, BelT), key, IV random or D(2^128-j) \
-so that s_0+i wraps, start position (block in {0, small, 2^8k+-2, random, near 2^128}, byte offset) reached by try_seek::<T> or set_block_pos, \
+pub const RULE: &str = "tape -> 16-byte cipher config (toy widths 1,2,3,4,5,8, encrypt-only toy, AES-128, BelT), key, IV random, D(2^128-j) so that s_0+i wraps, or D(x*2^64 + 2^64-1-j) so that the sum carries between 64-bit words, start position (block in {0, small, 2^8k+-2, random, near 2^128}, byte offset) reached by try_seek::<T> or set_block_pos, \
 <= 8 blocks of data in generated chunks and apply kinds; oracle = reference model, plus apply twice = identity; non-trivial = more than width \
 blocks, or the sum wraps, or a non-zero start; distinct by hash of decoded values";
 
@@ -26,8 +25,10 @@ pub fn check(ctx: &Ctx, t: &mut Tape<'_>, r: &mut Report) -> CheckResult {
     let j = t.idx(6) as u128;
     let mut iv = gen_iv(t, bs);
     let near_wrap = ivclass >= 160 && suite.info.has_dec;
-    if near_wrap {
-        let s0 = u128::MAX - j;
+    let low_word_carry = (96..160).contains(&ivclass) && suite.info.has_dec;
+    if near_wrap || low_word_carry {
+        // s_0 just below 2^128, or with its low 64-bit word just below 2^64 (carry between words)
+        let s0 = if near_wrap { u128::MAX - j } else { ((iv[0] as u128 * 0x0101_0101_0101_0101 + 7) << 64) | (u64::MAX as u128 - j) };
         let mut b = s0.to_le_bytes().to_vec();
         c.dec(&mut b);
         iv = b;
@@ -48,6 +49,7 @@ pub fn check(ctx: &Ctx, t: &mut Tape<'_>, r: &mut Report) -> CheckResult {
     let wraps = nblocks > 0 && first.checked_add(nblocks - 1).is_none() || first == 0;
     r.nontrivial = nblocks as usize > par || wraps || blk != 0 || off != 0;
     r.label_if(wraps, "sum-wraps");
+    r.label_if(nblocks > 0 && (first as u64).checked_add((nblocks - 1) as u64).is_none(), "low-word-carry-in-request");
     r.label_if(nblocks as usize > par && par > 1, "n>par");
     r.label_if(blk != 0 || off != 0, "nonzero-start");
     r.label_if(blk >= 1 << 64, "index>=2^64");
